@@ -739,7 +739,11 @@ func (e *Engine) applyContract(fr *Frame, st *State, reach Term, fc *FuncContrac
 			lastClo = a.Clo
 		}
 		ce := e.P.bodyEffects(a.Clo.Fn, 1)
-		if ce.all {
+		if lastClo == a.Clo && fc.LastCallAtomic {
+			// retry-style callee: every attempt before the last one failed, and failed attempts are assumed to leave
+			// the heap as it was (trusted, listed): the last call below starts from the current state
+			e.used["TRUSTED: attempts of the closure passed to "+fc.ID+" that fail leave the state unchanged (failures_are_atomic)"] = true
+		} else if ce.all {
 			st.havocPrefix([]string{""}, true)
 		} else if len(ce.comps) > 0 {
 			st.havocPrefix(ce.comps, true)
